@@ -12,7 +12,12 @@ ASSUMPTIONS = [
     "the model is deliberately permissive about which failure a fault produces; the trace specification judges only C14's clauses: at most one handler "
     "execution per request, a reply echoes that very request's id and payload, outcome is reply / connection error / timeout, a request with a timeout "
     "completes within it (+50 ms), a request without timeout may stay pending under a held link, without any fault every request gets its reply",
-    "turmoil simulates the network; real sockets are covered by C12/C13",
+    "a reply travels as head and body (RpcNet.tla ToClient / BodyArrives): the unsound variation BodyUncovered (the timeout ends with the head, a body "
+    "cut off is an internal error - the code before the repair) must violate C14_TimeoutBound and C14_Outcome",
+    "real sockets: the same model schedules (stride sample) and random ones, in real time (tick = 100 ms, a timed request may be 1 s late), against the real "
+    "hyper transport (net/client.rs) and server through a TCP relay of the harness: hold = bytes kept back in both directions, partition = connections cut "
+    "and refused, hold_reply = the link goes on hold after N more bytes from the server (replies of up to 1.2 MB stopped inside their head or half-way "
+    "through their body); turmoil 0.4.0 itself panics on reads larger than its segment buffer, so large replies are exercised on real sockets only",
 ]
 
 
@@ -20,20 +25,28 @@ def run(ctx):
     binary = vlib.build_harness(ctx, "h-sim")
     consts = dict(Reqs={1, 2}, TmoTicks={0, 1, 4}, MaxFaults=2, MaxTicks=6) if ctx.tier == "quick" else dict(Reqs={1, 2, 3}, TmoTicks={0, 1, 4}, MaxFaults=2, MaxTicks=4)
     invs = ["C14_AtMostOnce", "C14_Outcome", "C14_ReplyMeansHandled", "C14_TimeoutBound", "C14_NoFaultNoFailure"]
+    consts = dict(consts, BodyUncovered=False)
     mc_cfg = vlib.cfg_text(constants=dict(consts, EmitSched=False), invariants=invs)
-    mc, text = vlib.run_tlc(ctx, "RpcNet", mc_cfg, "mc", workers=8, timeout=3000, xmx="10g")
+    mc, text = vlib.run_tlc(ctx, "RpcNet", mc_cfg, "mc", workers=8, timeout=3000, xmx="10g", extra=["-coverage", "1"])
     if not vlib.require_clean_mc(ctx, mc, text, "RpcNet"):
         raise vlib.ToolError("RpcNet.tla violates %s: specification error" % mc["violated"])
     ctx.log("RpcNet: %d states, %d transitions" % (mc["distinct"], mc["generated"]))
+    vlib.require_actions(mc, ["ToClient", "BodyArrives", "BodyBroken", "Broken", "TimeoutFires", "ConnectFail"], "RpcNet")
+    # the unsound variation (the code before the repair) must be told apart
+    for inv in ("C14_TimeoutBound", "C14_Outcome"):
+        c2 = vlib.cfg_text(constants=dict(consts, Reqs={1}, BodyUncovered=True, EmitSched=False), invariants=[inv])
+        r2, _ = vlib.run_tlc(ctx, "RpcNet", c2, "mc_uncovered_" + inv, workers=4, timeout=1800)
+        if inv not in r2["violated"]:
+            raise vlib.ToolError("RpcNet.tla no longer tells the variation BodyUncovered apart (%s)" % inv)
     # the schedules that are executed come from the two-request universe (with one more timeout value in the thorough tier);
     # the three-request universe of the thorough tier is model checked only - its schedules would fill the disk
-    gen_consts = consts if ctx.tier == "quick" else dict(Reqs={1, 2}, TmoTicks={0, 1, 2, 4}, MaxFaults=2, MaxTicks=6)
+    gen_consts = consts if ctx.tier == "quick" else dict(Reqs={1, 2}, TmoTicks={0, 1, 2, 4}, MaxFaults=2, MaxTicks=6, BodyUncovered=False)
     gen_cfg = vlib.cfg_text(constants=dict(gen_consts, EmitSched=True), constraints=["Emit"])
     sched_file = ctx.path("sched.out")
     gen, gtext = vlib.run_tlc(ctx, "RpcNet", gen_cfg, "gen", workers=1, timeout=3000, stdout_to=sched_file, xmx="10g")
     if gen["distinct"] is None or gen["errors"]:
         raise vlib.ToolError("schedule generation failed:\n" + gtext[-2000:])
-    stride = 40 if ctx.tier == "quick" else 6
+    stride = 80 if ctx.tier == "quick" else 12
     trace1 = ctx.path("trace_model.ndjson")
     out = vlib.run_harness(ctx, [binary, "replay-schedules", "--input", sched_file, "--out", trace1, "--stride", str(stride),
                                  "--seed", str(ctx.seed)], timeout=3000)
@@ -42,8 +55,26 @@ def run(ctx):
     n_rand = 400 if ctx.tier == "quick" else 4000
     out = vlib.run_harness(ctx, [binary, "random-schedules", "--n", str(n_rand), "--out", trace2, "--seed", str(ctx.seed)], timeout=3000)
     st2 = json.loads(out.strip().splitlines()[-1])
+    # the same on real sockets, through the harness's TCP relay
+    rpc = vlib.build_harness(ctx, "h-rpc")
+    trace3 = ctx.path("trace_tcp_model.ndjson")
+    out = vlib.run_harness(ctx, [rpc, "netfaults", "replay-schedules", "--input", sched_file, "--out", trace3,
+                                 "--stride", str(stride * 4), "--seed", str(ctx.seed)], timeout=3000)
+    st3 = json.loads(out.strip().splitlines()[-1])
+    trace4 = ctx.path("trace_tcp_random.ndjson")
+    out = vlib.run_harness(ctx, [rpc, "netfaults", "random-schedules", "--n", str(300 if ctx.tier == "quick" else 3000), "--out", trace4,
+                                 "--seed", str(ctx.seed)], timeout=3000)
+    st4 = json.loads(out.strip().splitlines()[-1])
+    tcp_outcomes = {k: st3["outcomes"].get(k, 0) + st4["outcomes"].get(k, 0) for k in set(st3["outcomes"]) | set(st4["outcomes"])}
+    for need in ("reply", "ConnectionError", "Timeout"):
+        if tcp_outcomes.get(need, 0) == 0:
+            raise vlib.ToolError("vacuous: no request over real sockets ended with %s (%s)" % (need, tcp_outcomes))
+    if st4["held_replies"] == 0:
+        raise vlib.ToolError("vacuous: no reply was put on hold half-way")
+    ctx.log("real sockets: %d model schedules + %d random schedules (%d with a reply held half-way), %d requests (%s)" % (
+        st3["schedules"], st4["schedules"], st4["held_replies"], st3["requests"] + st4["requests"], tcp_outcomes))
     fails = []
-    for name, tr in (("model", trace1), ("random", trace2)):
+    for name, tr in (("model", trace1), ("random", trace2), ("tcp_model", trace3), ("tcp_random", trace4)):
         tv = vlib.validate_trace(ctx, "Trace_RpcNet", {}, tr, "trace_" + name, invariants=["Report"])
         if tv["rejected"] is not None:
             raise vlib.ToolError("trace validation stopped early: %s" % tv["rejected"])
@@ -55,7 +86,8 @@ def run(ctx):
     ctx.log("%d model schedules + %d random schedules in turmoil, %d requests (%s): %d rejected" % (
         st1["schedules"], st2["schedules"], st1["requests"] + st2["requests"], outcomes, len(fails)))
     for e in fails[:4]:
-        ctx.violations.append({"engine": "h-sim + Trace_RpcNet", "event": e, "why": ["request outcome violates C14"]})
+        ctx.violations.append({"engine": ("h-rpc netfaults" if e.get("transport") == "tcp" else "h-sim") + " + Trace_RpcNet", "event": e,
+                               "why": ["request outcome violates C14"]})
     samples = []
     with open(trace1) as f:
         for i, line in enumerate(f):
@@ -63,9 +95,12 @@ def run(ctx):
             if e.get("schedule"):
                 samples.append(e)
     cov = {"states": mc["distinct"], "transitions": mc["generated"],
-           "traces_validated_against_impl": st1["schedules"] + st2["schedules"], "samples": samples[:4],
+           "traces_validated_against_impl": st1["schedules"] + st2["schedules"] + st3["schedules"] + st4["schedules"], "samples": samples[:4],
            "model_schedules_total": None, "model_schedules_run": st1["schedules"], "random_schedules_run": st2["schedules"],
-           "requests": st1["requests"] + st2["requests"], "outcomes": outcomes, "requests_rejected": len(fails), "stride": stride}
+           "requests": st1["requests"] + st2["requests"], "outcomes": outcomes, "requests_rejected": len(fails), "stride": stride,
+           "real_sockets": {"model_schedules_run": st3["schedules"], "random_schedules_run": st4["schedules"], "replies_held_half_way": st4["held_replies"],
+                            "requests": st3["requests"] + st4["requests"], "outcomes": tcp_outcomes},
+           "unsound_variations_told_apart": ["BodyUncovered"]}
     return vlib.finish(ctx, "model_checking", cov, ASSUMPTIONS)
 
 
